@@ -27,26 +27,51 @@ fn recompute(chain: &[BlockSpec], heights: &[u64]) -> RefStats {
     }
     r
 }
-fn compare(suite: &str, inp: &str, st: &SimpleStats, r: &RefStats) {
-    let c = "C15:figure_equals_independent_recomputation";
-    check(st.n_valid_blocks == r.blocks, suite, c, &format!("{} blocks", inp), &st.n_valid_blocks.to_string(), &r.blocks.to_string());
-    check(st.n_tx == r.txs, suite, c, &format!("{} transactions", inp), &st.n_tx.to_string(), &r.txs.to_string());
-    check(st.n_tx_inputs == r.ins, suite, c, &format!("{} inputs", inp), &st.n_tx_inputs.to_string(), &r.ins.to_string());
-    check(st.n_tx_outputs == r.outs, suite, c, &format!("{} outputs", inp), &st.n_tx_outputs.to_string(), &r.outs.to_string());
-    check(st.n_tx_total_fee == r.fee, suite, "C15:total_fees", inp, &st.n_tx_total_fee.to_string(), &r.fee.to_string());
-    check(st.n_tx_total_volume == r.vol, suite, "C15:total_volume", inp, &st.n_tx_total_volume.to_string(), &r.vol.to_string());
-    let gv = (st.tx_biggest_value.0, st.tx_biggest_value.1, st.tx_biggest_value.2.to_byte_array());
-    check(gv == r.big_val, suite, "C15:biggest_tx_by_value_first_on_ties", inp, &format!("{:?}", (gv.0, gv.1, hex(&gv.2[..4]))), &format!("{:?}", (r.big_val.0, r.big_val.1, hex(&r.big_val.2[..4]))));
-    let gs = (st.tx_biggest_size.0, st.tx_biggest_size.1, st.tx_biggest_size.2.to_byte_array());
-    check(gs == r.big_size, suite, "C15:biggest_tx_by_size_first_on_ties", inp, &format!("{:?}", (gs.0, gs.1, hex(&gs.2[..4]))), &format!("{:?}", (r.big_size.0, r.big_size.1, hex(&r.big_size.2[..4]))));
-    check(st.block_sizes == r.sizes, suite, "C15:block_sizes", inp, &format!("{:?}", st.block_sizes), &format!("{:?}", r.sizes));
-    check(st.t_between_blocks == r.gaps, suite, "C15:time_between_blocks_clamped_at_zero", inp, &format!("{:?}", st.t_between_blocks), &format!("{:?}", r.gaps));
-    let gt: std::collections::BTreeMap<String, u64> = st.n_tx_types.iter().map(|(k, v)| (format!("{}", k), *v)).collect();
-    check(gt == r.types, suite, "C15:per_script_type_counts", inp, &format!("{:?}", gt), &format!("{:?}", r.types));
-    let gf: std::collections::BTreeMap<String, (u64, [u8; 32], u32)> = st.tx_first_occs.iter().map(|(k, v)| (format!("{}", k), (v.0, v.1.to_byte_array(), v.2))).collect();
-    check(gf == r.first, suite, "C15:first_occurrence_per_script_type", inp, &format!("{:?}", gf.iter().map(|(k, v)| (k.clone(), v.0, v.2)).collect::<Vec<_>>()), &format!("{:?}", r.first.iter().map(|(k, v)| (k.clone(), v.0, v.2)).collect::<Vec<_>>()));
+/// the report the property speaks about, rendered from the independent recomputation (same layout as print_*)
+fn expected_report(r: &RefStats) -> Vec<String> {
     let mean = |v: &Vec<u32>| if v.is_empty() { 0.0 } else { v.iter().map(|x| *x as u64).sum::<u64>() as f64 / v.len() as f64 };
-    check(utils::get_mean(&st.block_sizes) == mean(&r.sizes), suite, "C15:exact_arithmetic_mean", &format!("{} mean block size", inp), &utils::get_mean(&st.block_sizes).to_string(), &mean(&r.sizes).to_string());
+    let mut v = vec![
+        format!("-> valid blocks: {}", r.blocks), format!("-> total transactions: {}", r.txs),
+        format!("-> total tx inputs: {}", r.ins), format!("-> total tx outputs: {}", r.outs),
+        format!("-> total tx fees: {:.8} ({} units)", r.fee as f64 * 1E-8, r.fee), format!("-> total volume: {:.8} ({} units)", r.vol as f64 * 1E-8, r.vol),
+        format!("-> biggest value tx: {:.8} ({} units) | seen in block #{}, txid: {}", r.big_val.0 as f64 * 1E-8, r.big_val.0, r.big_val.1, hex_rev(&r.big_val.2)),
+        format!("-> biggest size tx: {} bytes | seen in block #{}, txid: {}", r.big_size.0, r.big_size.1, hex_rev(&r.big_size.2)),
+        format!("-> avg block size: {:.2} KiB", mean(&r.sizes) / 1024.00), format!("-> avg time between blocks: {:.2} (minutes)", mean(&r.gaps) / 60.00),
+        format!("-> avg txs per block: {:.2}", r.txs as f64 / r.blocks as f64), format!("-> avg inputs per tx: {:.2}", r.ins as f64 / r.txs as f64),
+        format!("-> avg outputs per tx: {:.2}", r.outs as f64 / r.txs as f64), format!("-> avg value per output: {:.2}", r.vol as f64 / r.outs as f64 * 1E-8),
+    ];
+    for (ty, n) in &r.types {
+        let name = if ty == "OpReturn" { "OpReturn(\"\")".to_string() } else { ty.clone() };
+        let f = r.first[ty];
+        v.push(format!("-> {}: {} ({:.2}%) | first seen in block #{}, txid: {}", name, n, (*n as f64 / r.outs as f64) * 100.00, f.0, hex_rev(&f.1)));
+    }
+    v.sort();
+    v
+}
+/// the report actually logged by on_complete, normalised: tabs collapsed, the "seen in block" lines joined to their figure
+fn logged_report(text: &str) -> Vec<String> {
+    let mut v: Vec<String> = Vec::new();
+    for l in text.lines() {
+        let t = l.split_whitespace().collect::<Vec<_>>().join(" ");
+        if t.starts_with("->") { v.push(t); }
+        else if t.starts_with("seen in block") || t.starts_with("first seen in block") { if let Some(last) = v.last_mut() { last.push_str(" | "); last.push_str(&t); } }
+    }
+    v.sort();
+    v
+}
+fn compare(suite: &str, inp: &str, text: &str, r: &RefStats) {
+    let got = logged_report(text);
+    let want = expected_report(r);
+    for w in &want {
+        if !got.contains(w) {
+            let key: String = w.split(':').next().unwrap_or("").to_string();
+            let g = got.iter().find(|g| g.starts_with(&key)).cloned().unwrap_or_else(|| "<line missing>".into());
+            let c = if key.contains("biggest") { "C15:biggest_tx_first_on_ties" } else if key.contains("avg") { "C15:exact_arithmetic_mean" }
+                    else if key.contains("fees") { "C15:total_fees" } else if w.contains("first seen") { "C15:per_script_type_count_share_first_occurrence" } else { "C15:figure_equals_independent_recomputation" };
+            fail(suite, c, inp, &g, w);
+        }
+    }
+    check(got.len() == want.len(), suite, "C15:report_has_exactly_the_expected_figures", inp, &format!("{} figures", got.len()), &format!("{} figures", want.len()));
 }
 /// C15 (bounded: 2 random histories of 12 blocks with ties and non-monotonic timestamps; one history placed at the
 /// 33rd subsidy era; a mean over values summing beyond 2^32)
@@ -71,12 +96,12 @@ fn c15_figures_match_recomputation() {
             d.write();
             let blocks = match fetch_blocks(d.path(), "bitcoin", base, base + 11, false) { Ok(b) => b, Err(m) => { fail(suite, "C15:chain_parses", &format!("history {} base {}", salt, base), &m, "Ok"); continue; } };
             let mut st = SimpleStats::default();
+            log_begin();
             st.on_start(base).unwrap();
             for (i, b) in blocks.iter().enumerate() { st.on_block(b, heights[i]).unwrap(); }
-            compare(suite, &format!("history {} heights {}..", salt, base), &st, &recompute(&chain, &heights));
-            cases += 1;
             let r = std::panic::catch_unwind(std::panic::AssertUnwindSafe(|| st.on_complete(base + 11)));
-            check(matches!(r, Ok(Ok(()))), suite, "C15:report_renders", &format!("history {}", salt), "panic/err", "Ok");
+            if !check(matches!(r, Ok(Ok(()))), suite, "C15:report_renders", &format!("history {}", salt), "panic/err", "Ok") { continue; }
+            compare(suite, &format!("history {} heights {}..", salt, base), &log_text(), &recompute(&chain, &heights));
         }
     }
     cases += 1;
